@@ -75,6 +75,12 @@ def main():
             seed = int(a[1]); a = a[2:]
         else:
             a = a[1:]
+    if "--confirm-d36" in sys.argv:
+        ws = ["select case when (select max(a) from s) > 1 then (select b . from u) else 0 as k from v", "merge into {{ t using s on t.id = s.id when matched then update set t.a = s.a when not matched then insert (a, b) values (s.a, s.b)"]
+        bad = [(w, run(w, "non-validating")) for w in ws]
+        bad = [(w, e) for w, e in bad if e]
+        print(json.dumps({"violations": [{"clause": "raises.unexpected." + e, "sql": w, "dialect": "non-validating"} for w, e in bad]}))
+        return 1 if bad else 0
     if "--confirm-d5" in sys.argv:
         bad = set()
         import subprocess, os
